@@ -267,7 +267,9 @@ Lemma mr_ok_hier pre se ue hs he hi po se' ue' hs' he' hi' po' bsegs blast bq bf
   forallb no_slash bsegs = true -> no_slash blast = true -> forallb no_slash tsegs = true -> no_slash tlast = true ->
   mr_ok (hier_url pre se ue hs he hi po bsegs blast bq bf) (hier_url pre se' ue' hs' he' hi' po' tsegs tlast tq tf) = true ->
   forallb nonempty bsegs = true /\ forallb nonempty tsegs = true
-  /\ existsb starts_with_wdl (([] :: bsegs) ++ ([] :: tsegs) ++ [blast; tlast]) = false
+  /\ existsb starts_with_wdl
+       (if st_is_file (scheme_type_of (b_scheme (hier_url pre se ue hs he hi po bsegs blast bq bf)))
+        then ([] :: bsegs) ++ ([] :: tsegs) ++ [blast; tlast] else fst (skip_common bsegs tsegs)) = false
   /\ forall ra rb, skip_common bsegs tsegs = (ra, rb) ->
        (ra = [] -> rb = [] -> list_eqb blast tlast = false -> tlast = [] -> bsegs = [])
        /\ (ra = [] -> has_scheme_b (match rb with s :: _ => s | [] => if list_eqb blast tlast then [] else tlast end) = false)
@@ -288,9 +290,12 @@ Proof.
   destruct (existsb is_nil bsegs) eqn:E1; [exfalso; cbn [orb] in H; lia|].
   destruct (existsb is_nil tsegs) eqn:E2; [exfalso; cbn [orb] in H; lia|]. cbn [orb] in H.
   destruct (existsb is_dotty (tsegs ++ [tlast])); [exfalso; lia|].
-  destruct (existsb starts_with_wdl (([] :: bsegs) ++ ([] :: tsegs) ++ [blast; tlast])) eqn:E3; [exfalso; lia|].
+  cbn [skip_common list_eqb] in H.
+  destruct (existsb starts_with_wdl
+              (if st_is_file (scheme_type_of (b_scheme (hier_url pre se ue hs he hi po bsegs blast bq bf)))
+               then ([] :: bsegs) ++ ([] :: tsegs) ++ [blast; tlast] else fst (skip_common bsegs tsegs))) eqn:E3; [exfalso; lia|].
   split; [apply existsb_nil_nonempty; exact E1|]. split; [apply existsb_nil_nonempty; exact E2|]. split; [reflexivity|].
-  intros ra rb Es. cbn [skip_common list_eqb] in H. rewrite Es in H.
+  intros ra rb Es. rewrite Es in H.
   change (query_start (hier_url pre se' ue' hs' he' hi' po' tsegs tlast tq tf)) with (qf_qs (nlen (pre ++ path_text tsegs tlast)) tq) in H.
   change (query_start (hier_url pre se ue hs he hi po bsegs blast bq bf)) with (qf_qs (nlen (pre ++ path_text bsegs blast)) bq) in H.
   split; [|split].
